@@ -15,7 +15,7 @@ PY
 rc=$?
 if [ $rc -ne 0 ]; then git -C /repo checkout -- . ; exit $rc; fi
 git -C /repo diff --stat | tail -1
-export GOFLAGS=-mod=mod GOPROXY=off GOSUMDB=off GOTOOLCHAIN=local
+export GOFLAGS=-mod=mod GOPROXY=off GOSUMDB=off GOTOOLCHAIN=local; mkdir -p /tmp/trymut-verif; cp /verif/known_findings.json /tmp/trymut-verif/
 for p in ${props//,/ }; do
   MHUBSA_VERIF=/tmp/trymut-verif /verif/bin/mhubsa -property $p 2>&1 | grep -E "VIOLATION|KNOWN|violations=|infrastructure|undecided" | sed 's/^/   /'
 done
